@@ -750,8 +750,23 @@ def r2_6(prog, rep):
     rets = [n for n in walk_local(cc.node) if isinstance(n, ast.Return)]
     ok = len(rets) == 1 and isinstance(rets[0].value, ast.ListComp)
     if ok:
-        lc = rets[0].value
+        import copy as _copy
+        lc = _copy.deepcopy(rets[0].value)
         g = lc.generators
+        # the outer iterable may be a local generator `(t for t in self.common_terms if isinstance(t, Term))`: read through it
+        if g and isinstance(g[0].iter, ast.Name):
+            ds = [st_ for st_ in walk_local(cc.node) if isinstance(st_, ast.Assign) and len(st_.targets) == 1 and unparse(st_.targets[0]) == g[0].iter.id]
+            if len(ds) == 1 and isinstance(ds[0].value, (ast.GeneratorExp, ast.ListComp)) and len(ds[0].value.generators) == 1 \
+                    and isinstance(ds[0].value.generators[0].target, ast.Name) and unparse(ds[0].value.elt) == ds[0].value.generators[0].target.id \
+                    and isinstance(g[0].target, ast.Name) and not g[0].ifs:
+                inner = ds[0].value.generators[0]
+                ren = {inner.target.id: g[0].target.id}
+                ifs = _copy.deepcopy(inner.ifs)
+                for c_ in ifs:
+                    for n_ in ast.walk(c_):
+                        if isinstance(n_, ast.Name) and n_.id in ren:
+                            n_.id = ren[n_.id]
+                g[0].iter, g[0].ifs = inner.iter, ifs
         ok = (len(g) == 2 and unparse(g[0].iter) == "self.common_terms" and [unparse(i) for i in g[0].ifs] in ([f"isinstance({unparse(g[0].target)}, Term)"], [])
               and unparse(g[1].iter) == f"{unparse(g[0].target)}.components" and not g[1].ifs and unparse(lc.elt) == unparse(g[1].target))
     obl(rep, cc, cc.node, "R2.6", ok, "allcomps(X) = the components of every common Term of X, in order, unfiltered", "",
